@@ -89,6 +89,17 @@ func flowsFrom(P *core.Program, v ssa.Value, leaf func(ssa.Value) bool, seen map
 			return false
 		}
 		return flowsFrom(P, core.FreeVarValue(x), leaf, seen, depth+1)
+	case *ssa.Extract:
+		// one of several results of an in-repository helper (`n, err := parseListMaxResults(s)`)
+		if call, ok := x.Tuple.(*ssa.Call); ok {
+			if callee := call.Call.StaticCallee(); callee != nil && callee.Blocks != nil && P.SPkgs[core.PkgPathOf(callee)] != nil {
+				for _, r := range returnsIn(callee) {
+					if x.Index < len(r.Results) && flowsFrom(P, r.Results[x.Index], leaf, seen, depth+1) {
+						return true
+					}
+				}
+			}
+		}
 	case *ssa.Convert:
 		return flowsFrom(P, x.X, leaf, seen, depth+1)
 	case *ssa.ChangeType:
@@ -448,7 +459,7 @@ func R78() Rule {
 				return false
 			}
 			ci := core.Call(call)
-			return ci != nil && (ci.IsFunc("strconv", "Atoi") || ci.IsFunc("strconv", "ParseInt")) && within[call.Parent()]
+			return ci != nil && (ci.IsFunc("strconv", "Atoi") || ci.IsFunc("strconv", "ParseInt"))
 		}
 		var cbs []*ssa.Function
 		seenCb := map[*ssa.Function]bool{}
